@@ -40,6 +40,8 @@ type impTarget struct {
 	// emitted as `abstractSrc` so that an edit of them breaks the proofs that pin it
 	grp string // name of a point type treated as an ABSTRACT group element type G with operations add / dbl / neg / zero (imp_grp.go)
 	inf string // name of the package-level variable holding the point at infinity (read as `zero`)
+	ext bool   // extended parameter set (JointScalarMultiplication / mulGLV): fromAffine, phi, split, limbs, frBits, elBitLen
+	aff string // name of the affine point type (abstract type A, only converted by FromAffine)
 }
 
 var impTargets = []impTarget{
@@ -180,12 +182,18 @@ func (p *impPkg) goType(e ast.Expr) *ity {
 		if p.tg.grp != "" && v.Name == p.tg.grp {
 			return &ity{k: "grp"}
 		}
+		if p.tg.aff != "" && v.Name == p.tg.aff {
+			return &ity{k: "aff"}
+		}
 	case *ast.SelectorExpr:
 		if id, ok := v.X.(*ast.Ident); ok && id.Name == "hash" && v.Sel.Name == "Hash" {
 			return tyHash
 		}
 		if id, ok := v.X.(*ast.Ident); ok && id.Name == "big" && v.Sel.Name == "Int" {
 			return &ity{k: "bigint"}
+		}
+		if id, ok := v.X.(*ast.Ident); ok && id.Name == "fr" && v.Sel.Name == "Element" && p.tg.ext {
+			return &ity{k: "frel"} // the raw words of an fr.Element ([Limbs]uint64) as a list of naturals
 		}
 		if id, ok := v.X.(*ast.Ident); ok && id.Name == "sync" && v.Sel.Name == "WaitGroup" {
 			return &ity{k: "waitgroup"}
@@ -215,7 +223,7 @@ func (p *impPkg) goType(e ast.Expr) *ity {
 		}
 		if n := litInt(v.Len); n != nil && p.tg.grp != "" && n.IsInt64() && n.Int64() > 0 && n.Int64() < 1024 {
 			// fixed-size array of group elements: a list of that length (a value; element writes are value updates)
-			if t := p.goType(v.Elt); t.k == "grp" {
+			if t := p.goType(v.Elt); t.k == "grp" || t.k == "frel" {
 				return &ity{k: "array", n: int(n.Int64()), elem: t}
 			}
 		}
@@ -224,7 +232,7 @@ func (p *impPkg) goType(e ast.Expr) *ity {
 			return &ity{k: "map", elem: p.goType(v.Value)}
 		}
 	case *ast.StarExpr:
-		if t := p.goType(v.X); t.k == "struct" || t.k == "elem" || t.k == "grp" {
+		if t := p.goType(v.X); t.k == "struct" || t.k == "elem" || t.k == "grp" || t.k == "aff" {
 			return &ity{k: "ptr", elem: t}
 		} else if t.k == "bigint" { // *big.Int is read as an exact integer VALUE (mutating methods only on fresh objects)
 			return t
@@ -251,6 +259,12 @@ func (p *impPkg) lty(t *ity, qual bool) string {
 		return "F"
 	case "grp":
 		return "G"
+	case "aff":
+		return "A"
+	case "frel":
+		return "List Nat"
+	case "bigpair":
+		return "Int × Int"
 	case "array":
 		return "List " + p.ltyA(t.elem, qual)
 	case "bigint":
@@ -318,6 +332,8 @@ func (p *impPkg) zero(t *ity) string {
 		return "{}"
 	case "grp":
 		return "uninit"
+	case "frel":
+		return "(List.replicate limbs.toNat 0)"
 	case "array":
 		return fmt.Sprintf("List.replicate %d %s", t.n, p.zero(t.elem))
 	case "bigint":
@@ -521,6 +537,9 @@ func (p *impPkg) translateFunc(name string) string {
 	if fd == nil || fd.Body == nil {
 		die("imp: %s/%s: function %s not found", p.tg.dir, p.tg.file, name)
 	}
+	if p.tg.grp != "" {
+		renameShadowing(fd)
+	}
 	f := &impFn{p: p, fd: fd, name: name, nonNil: map[string]bool{}}
 	f.push()
 	var params []string
@@ -538,7 +557,7 @@ func (p *impPkg) translateFunc(name string) string {
 		params = append(params, "("+lname(f.recv)+" : "+p.lty(t, false)+")")
 	}
 	for _, fl := range fd.Type.Params.List {
-		if _, ok := fl.Type.(*ast.StarExpr); ok && p.goType(fl.Type).k != "bigint" && !(p.goType(fl.Type).k == "ptr" && p.goType(fl.Type).elem.k == "grp") {
+		if _, ok := fl.Type.(*ast.StarExpr); ok && p.goType(fl.Type).k != "bigint" && !(p.goType(fl.Type).k == "ptr" && (p.goType(fl.Type).elem.k == "grp" || p.goType(fl.Type).elem.k == "aff")) {
 			p.die(fl, "pointer parameter (outside the subset: only the receiver is passed by reference)")
 		}
 		t0 := p.paramType(fl.Type)
@@ -731,6 +750,10 @@ func runImp() {
 		if tg.grp != "" {
 			impAbsParams, impAbsArgs = grpAbsParams, grpAbsArgs
 			impExtraReserved = grpReserved
+			if tg.ext {
+				impAbsParams, impAbsArgs = grpExtParams, grpExtArgs
+				impExtraReserved = grpExtReserved
+			}
 		}
 		if tg.elem != "" {
 			impAbsParams, impAbsArgs = " {F : Type} (mul : F → F → F) (one : F) (inv : F → F)", " mul one inv"
@@ -802,6 +825,9 @@ func runImp() {
 		for _, fn := range tg.funcs {
 			if sig := p.grpTranslated[fn]; sig != nil && tg.grp != "" {
 				ty := "{G : Type} → (G → G → G) → (G → G) → (G → G) → G → G → G"
+				if tg.ext {
+					ty = "{G : Type} → {A : Type} → (G → G → G) → (G → G) → (G → G) → G → G → (A → G) → (G → G) → (Int → Int × Int) → Int → (Int → List Nat) → (List Nat → Int) → G"
+				}
 				for _, t := range sig.params {
 					ty += " → " + p.ltyA(t, false)
 				}
